@@ -427,6 +427,11 @@ func main() {
 		}
 		defer gw.close()
 		if c.Replay != "" {
+			var probe struct{ Key *string }
+			if err := c.LoadReplay(&probe); err == nil && probe.Key != nil {
+				sweepKey(c, rig.UnHex(*probe.Key))
+				return
+			}
 			var cs Case
 			if err := c.LoadReplay(&cs); err != nil {
 				fmt.Fprintln(os.Stderr, err)
